@@ -10,6 +10,7 @@ import (
 	"math/big"
 	"runtime"
 	"strconv"
+	"strings"
 	"sync"
 	"time"
 
@@ -475,6 +476,15 @@ func (rn *runner) first(ctx *core.Ctx, op []string, p int, peer boson.Address) s
 }
 
 func (rn *runner) Step(ctx *core.Ctx, op []string) string {
+	out := rn.step(ctx, op)
+	// the opening balance handed out by the settlement layer is the layer's own value: accounting must never change it
+	if was, is, mutated := rn.sc.CheckShared(); mutated {
+		ctx.Fail("backend-value-mutated", "`%s`: the *big.Int returned by RetrieveTraffic (%s) was changed in place to %s", strings.Join(op, " "), was, is)
+	}
+	return out
+}
+
+func (rn *runner) step(ctx *core.Ctx, op []string) string {
 	atoi := func(s string) (uint64, bool) {
 		v, err := strconv.ParseUint(s, 10, 64)
 		return v, err == nil
